@@ -272,7 +272,7 @@ def _big_doc_job(job):
     from .. import docspace as D
     k, seed = job
     acc = Acc()
-    j = (D.giant_jobs(seed) + D.aligned_jobs(seed) + [(['**kern'], ['DISTINCT'], seed)])[k]
+    j = (D.giant_jobs(seed) + D.aligned_jobs(seed) + [(['**kern'], ['DISTINCT'], seed), (['**kern', '**kern'], ['SIGNATURES'], seed), (['**kern', '**kern'], ['SIGNATURES'], seed + 2)])[k]
     m = D.materialise(j)
     # the document-level oracle works on (headers, history); global comments are left out (they play no part in this property)
     hist = [r for r in D.hist_of(m) if not isinstance(r, tuple)]
@@ -305,7 +305,7 @@ def run(ctx):
     check_pitch_level(ctx)
     ctx.pmap(_one_note_job, [(b, mk) for b in CLEF_BASE for mk in (MARKS if not quick else ['', 'v', '^^'])], chunksize=1)
     ctx.pmap(_clef_sweep_job, [(o, a) for o in ('listed', 'reversed', 'by-mark') for a in (('', '#') if quick else ('', '#', 'n', '--', '-y'))], chunksize=1)
-    ctx.pmap(_big_doc_job, [(k, seed) for k in range(5)], chunksize=1)
+    ctx.pmap(_big_doc_job, [(k, seed) for k in range(7)], chunksize=1)
     jobs = []
     for h, d in cfg:
         shorter, js = X.walk_jobs(h, d, seed, 4, menu, split_at=min(2, d))
